@@ -73,7 +73,7 @@ def _run(ctx, quick, pool):
     jobs = []
     for gi, (ci, bs) in enumerate(sorted(groups.items())):
         for k in range(0, len(bs), 40):
-            jobs.append(dict(c=configs[ci], seed=ctx.seed, gi=gi + k, t0=[0.0, 0.25, -0.5, 1.0][(ci + k) % 4],
+            jobs.append(dict(c=configs[ci], seed=ctx.seed, gi=gi + k, t0=[0.0, 0.25, -0.5, 1.0, 16384.0, -8192.0][(ci + k) % 6],
                              j=[3, 4, 5][(ci + k // 40) % 3], behs=bs[k:k + 40]))
     seen_fail = {}
     sens = [0, 0]
